@@ -69,7 +69,7 @@ def compositions(k):
             yield [first] + rest
 
 
-def and_case(kind, pairs, sizes, nout, prefixes=None, dflt=0, variant=(), vals="int"):
+def and_case(kind, pairs, sizes, nout, prefixes=None, dflt=0, variant=(), vals="int", windows=None):
     """pairs: [(a, b)] operand specs, sizes: group sizes, prefixes: outer points (ascending).
     An operand spec is a leaf fiber [[coord, value], …] (values: model ints, see `real_val`),
     {"u": [lo, hi], "leaf": …, "how": "declared" | "estimated" | "active"} (rank format "U"),
@@ -86,6 +86,11 @@ def and_case(kind, pairs, sizes, nout, prefixes=None, dflt=0, variant=(), vals="
             prefixes = [[i // 4, (i // 2) % 2, 3 * (i % 2) + 1] for i in range(k)]
     c = {"prop": PROP, "kind": kind, "n": nout + 1, "dflt": dflt,
          "pairs": [[a, b] for a, b in pairs], "prefixes": prefixes, "sizes": sizes}
+    if windows and any(w is not None for w in windows):
+        # windows[i] = None | [lo, hi, "iterRange" | "iterActive"]: the i-th intersection is
+        # walked over that coordinate window only
+        c["windows"] = list(windows)
+        variant = list(variant) + ["windowed-walk"]
     if variant:
         c["variant"] = list(variant)
     if vals != "int":
@@ -240,6 +245,18 @@ def gen_and_widened(tier, s2, p2):
         grown = (x[0] + [[7, 1]], x[1] + [[8, 1]]) if i % 2 else (x[0] + [[7, 1], [9, 1]], x[1])
         for sizes in ([1, 1], [2]):
             yield and_case("and", [x, grown], sizes, 1, variant=["operand-mutated-between"])
+    # the intersection walked over a coordinate window only ((a & b).iterRange(lo, hi), or
+    # iterActive() under the active range of the first operand): the walk stops at the first
+    # delivered element at or beyond hi; more fibers follow in the same collection
+    for i, x in enumerate(p2):
+        for j, y in enumerate(p2):
+            hi = 1 + (i + j) % 2
+            how = "iterActive" if (i + 2 * j) % 3 == 0 else "iterRange"
+            lo = (i + j) % 2 if how == "iterRange" else 0
+            yield and_case("and", [x, y], [1, 1] if (i + j) % 4 < 2 else [2], 1, windows=[[lo, hi, how], None])
+            if (i + j) % 4 == 0:
+                yield and_case("and", [x, y, x], [3], 1, windows=[None, [0, hi, "iterRange"], None])
+                yield and_case("lf", [x, y], [1, 1], 1, windows=[[0, hi, "iterRange"], None])
     # value kinds, multi-digit / negative coordinates, three outer ranks
     for i, x in enumerate(p2):
         y = p2[(7 * i + 3) % len(p2)]
@@ -322,7 +339,12 @@ def gen_and_random(rng, count):
                 sizes.insert(rng.randrange(len(sizes) + 1), 0)
             if rng.random() < 0.3:       # "top of every outer iteration, and once after the loop"
                 sizes = [0] + [1] * k
-        yield and_case(kind, pairs, sizes, nout, rand_prefixes(rng, k, nout), dflt, variant=variant, vals=vals)
+        windows = None
+        if not variant and m is None and rng.random() < 0.2:      # windowed walks of some intersections
+            windows = [[rng.randrange(0, 3), rng.randrange(1, nmax + 1), "iterRange"] if rng.random() < 0.5 else None
+                       for _ in range(k)]
+        yield and_case(kind, pairs, sizes, nout, rand_prefixes(rng, k, nout), dflt, variant=variant, vals=vals,
+                       windows=windows)
 
 
 RADICES = [2, 3, 4, 5, "inf"]
@@ -582,6 +604,13 @@ def run_and(case):
         groups.append([{"oi": stamps[j], "pre": prefixes[j], "a": pairs[j][0], "b": pairs[j][1]}
                        for j in range(i, i + s)])
         i += s
+    windows = case.get("windows") or [None] * len(pairs)
+    j = 0
+    for g in groups:
+        for f in g:
+            if windows[j] is not None:
+                f["win"] = windows[j][:2]
+            j += 1
     case["groups"] = groups
     built = {}
     del _keep[:]
@@ -597,7 +626,13 @@ def run_and(case):
         key = idx if not ({"same-operands", "same-result"} & variant) else json.dumps(pairs[idx])
         if key not in built:
             ow = "tensor-owned" in variant
-            built[key] = (build_operand(pairs[idx][0], dflt, vals, ow), build_operand(pairs[idx][1], dflt, vals, ow))
+            w = windows[idx]
+            if w is not None and w[2] == "iterActive":
+                # the lazy result inherits the active range of its first operand
+                a = _leaf_fiber(pairs[idx][0], dflt, vals, active_range=(w[0], w[1]))
+            else:
+                a = build_operand(pairs[idx][0], dflt, vals, ow)
+            built[key] = (a, build_operand(pairs[idx][1], dflt, vals, ow))
         return built[key]
 
     results = {}
@@ -657,7 +692,14 @@ def run_and(case):
                     next(walker)
                 a, b = operands(idx)
                 before = (H.snapshot(a), H.snapshot(b)) if not a.isLazy() and not b.isLazy() else None
-                for _ in result(idx):
+                w = windows[idx]
+                if w is None:
+                    walk = result(idx)
+                elif w[2] == "iterActive":
+                    walk = result(idx).iterActive()
+                else:
+                    walk = result(idx).iterRange(w[0], w[1])
+                for _ in walk:
                     pass
                 if before is not None and before != (H.snapshot(a), H.snapshot(b)):
                     side["operands_unchanged"] = False
@@ -800,15 +842,11 @@ def nontrivial(case, verdict):
 
 def signature(case, verdict, failed):
     """classification of a failing case (no class of C19 is a known finding: the one-shot
-    over-count, the payload dependence of numSwaps and the handling of an empty first call
-    were repaired in the library)"""
+    over-count, the payload dependence of numSwaps, the handling of an empty first call and the
+    ticking of the operands of a lazy difference were repaired in the library)"""
     kind = case["kind"]
     why = verdict.get("why", "")
     part = why[why.find("specfail="):] if "specfail=" in why else ""
-    if kind == "and" and failed == ["spec"] and any(
-            isinstance(a, dict) and a.get("lazy") == "sub" and isinstance(b, dict) and b.get("lazy") == "and"
-            for a, b in case["pairs"]):
-        return "and:lazy-difference-then-lazy-intersection:trace-label-reuse"
     return f"{kind}:{'/'.join(sorted(failed))}:{part}"
 
 
